@@ -165,7 +165,7 @@ def gen_c08(rnd, n, thorough=False):
                 gl += fill_ops(rnd, nm, layout, m, xff, density=0.4, inconsistent=False)
             if rnd.chance(0.5):
                 gl += fill_ops(rnd, 'h/y/a.wsp', layout, m, xff, density=0.4, inconsistent=False)
-            pat = rnd.pick(['*/a.wsp', '*/*.wsp', 'y/?.wsp', 'z/*.wsp'])
+            pat = rnd.pick(['*/a.wsp', '*/*.wsp', 'y/?.wsp', 'z/*.wsp', '[xy]/a.wsp', 'y/[.wsp'])
             gl += ["clicopy src=g:%s dest=h: from=0 until=0 archive=-1 copynan=%d m=%d x=%08x layout=%s spell=%d" % (pat, copynan, m, xff, lay_csv(layout), rnd.pick([0, 1, 2, 3, 4]))]
             for nm in names:
                 observe_all(gl, 'h/' + nm[2:], layout)
@@ -262,7 +262,7 @@ def gen_c09(rnd, n, thorough=False):
                 if nm in differing:
                     cp = cp[:-2] + ["many h/%s 0 @ 1 @-%d %016x" % (nm, layout[0][0], fbits(777.0))] + cp[-2:]
                 gl += cp
-            pat = rnd.pick(['*/*.wsp', '*/a.wsp', 'q/*.wsp'])
+            pat = rnd.pick(['*/*.wsp', '*/a.wsp', 'q/*.wsp', '[xy]/*.wsp', 'x/[.wsp'])
             gl.append("clidiff src=g:%s dest=h: from=0 until=0 archive=-1 spell=%d" % (pat, rnd.pick([0, 1, 2, 3, 4])))
             cases.append({'id': 'c09-%d-glob' % c, 'lines': gl, 'tags': {'layout': lname, 'pair': 'glob', 'window': 'default'}})
         if c == 3:
@@ -326,7 +326,7 @@ def gen_c10(rnd, n, thorough=False):
             wk, frm, until = 'narrow', '@-%d' % rnd.randint(2, layout[0][0] * layout[0][1] - 1), '0'
         arch = rnd.pick([-1, -1, -1] + list(range(k)))
         itempat = 'zz*' if kind == 'nomatch_item' else rnd.pick(['*', items[0].split('.')[0] + '*' if '.' not in items[0] else 'a/b', 'i?']) if items != ['a.b'] else rnd.pick(['a/b', 'a/*'])
-        srcpat = 'q*.wsp' if kind == 'nomatch_file' else rnd.pick(['*.wsp', 'f*.wsp', 'f?.wsp', 'f0.wsp'])
+        srcpat = 'q*.wsp' if kind == 'nomatch_file' else rnd.pick(['*.wsp', 'f*.wsp', 'f?.wsp', 'f0.wsp', 'f[0-9].wsp', 'f[.wsp'])
         hold = ''
         if kind == 'order':
             hold = ' hold=s/%s/f0.wsp:300' % items[0].replace('.', '/')
@@ -551,8 +551,8 @@ def gen_c12(rnd, n, thorough=False):
                 elif kind == 'viewraw':
                     lines.append("cliviewraw src=s:i1/%s from=%s until=%s archive=%d header=1 sort=1%s" % (nm, frm, until, arch, r))
                 elif kind == 'sum':
-                    pat = rnd.pick(['*.wsp', 'a.wsp', 'zz*.wsp', '*+*.wsp', '*', 's*'])
-                    item = rnd.pick(['i*', 'i1', 'zz*'])
+                    pat = rnd.pick(['*.wsp', 'a.wsp', 'zz*.wsp', '*+*.wsp', '*', 's*', '[', 'a[.wsp'])      # incl. malformed patterns: an error both ways
+                    item = rnd.pick(['i*', 'i1', 'zz*', 'i[', '[a-'])
                     lines.append("clisum base=s item=%s src=%s from=%s until=%s archive=%d header=1%s" % (item, pat, frm, until, arch, r))
                     lines[-1] = lines[-1]   # the same patterns both ways
                     if remote == 0:
@@ -569,7 +569,7 @@ def gen_c12(rnd, n, thorough=False):
                         nm, remote, nm.replace('/', '_'), frm, until, arch, m, xff, lay_csv(layout), r))
                     observe_all(lines, dn, layout)
                 elif kind == 'globdiff':
-                    pat = rnd.pick(['i1/*.wsp', 'i*/a.wsp', 'zz/*.wsp', 'i1/*+*.wsp', 'i1/*', 'i1/s*'])
+                    pat = rnd.pick(['i1/*.wsp', 'i*/a.wsp', 'zz/*.wsp', 'i1/*+*.wsp', 'i1/*', 'i1/s*', 'i1/[', 'i[/a.wsp', 'i1/a[b-.wsp'])
                     if remote == 0:
                         keep = "clidiff src=s:%s dest=s: from=%s until=%s archive=%d remote=0" % (pat, frm, until, arch)
                         lines.append(keep)
@@ -617,6 +617,7 @@ def gen_c12(rnd, n, thorough=False):
             lines.append('cliquerycap src=%s archive=%d from=%s until=%s' % (('i1/' + nm).encode('utf-8').hex(), rnd.pick([-1, 0, 1, 7, -5, 2 ** 40]),
                                                                             rnd.pick(['0', '@-30', '1']), rnd.pick(['0', '@-3', '@+5'])))
         cases.append({'id': 'c12-%d' % c, 'lines': lines, 'tags': {'layout': lname}})
+    cases.append({'id': 'c12-newline', 'lines': ['clinewline'], 'tags': {'layout': 'newline_in_name'}})
     # the query string itself (net/url as client and handler use it): escape, unescape, parse
     import urllib.parse
     special = b' +&=;%#/?:@~-_.\x00\xff\xe3\x81\x82\n"<>'
